@@ -353,6 +353,8 @@ pub fn check_program(case: &SemCase, st: &mut Stats, ex: &Excl, levels: &[u8]) -
                 | "two-loads"
                 | "lone-load"
                 | "store-after-ordinary"
+                | "load-of-known-value"
+                | "asm-only-branch"
         )
     });
     for l in &case.labels {
@@ -409,7 +411,29 @@ pub fn run(ctx: &mut RunCtx) -> i32 {
             Case18::P(p) => check_program(p, st, &excl, &[0, if p.opt == 0 { 1 } else { p.opt }]),
         },
     );
+    let (mut stats, mut aborted) = (stats, aborted);
+    // (P) protected instructions survive optimize(): the optimizer driven through its public API
+    let raw_cases = ctx.cases(60_000, 3_000_000);
+    let (raw_stats, raw_failures, raw_aborted) = pbt::run_sharded(
+        ctx.seed,
+        "C18-raw",
+        ctx.shards,
+        raw_cases,
+        2000,
+        |_| pbt::strategy(super::rawopt::gen_case),
+        |case: &super::rawopt::RawCase, st: &mut Stats| super::rawopt::check(case, st, 2, "C18"),
+    );
+    stats.merge(&raw_stats);
+    aborted.extend(raw_aborted);
     let mut violations = super::take_regressions();
+    for f in raw_failures {
+        let class = f.reason.split(':').next().unwrap_or("").to_string();
+        violations.push(Violation {
+            class,
+            detail: f.reason.clone(),
+            replay: json!({"property": "C18", "kind": "rawopt", "which": 2, "reason": f.reason, "case": f.minimal}),
+        });
+    }
     for f in failures {
         let class = f.reason.split(':').next().unwrap_or("").to_string();
         let source = match &f.minimal {
@@ -430,7 +454,9 @@ pub fn run(ctx: &mut RunCtx) -> i32 {
                variables and register addresses (pairs on the same operand, register read followed by strobe, explicit access next \
                to an ordinary assignment of the same variable, csleep between a register assignment and its test), at -O0 and one of \
                -O1..-O3: final state = RefC and the trace of accesses to the dedicated objects = RefC's event list; (M) the program \
-               without its csleep statements ends in the same state; non-trivial = timing case, or a program with an adjacency label \
+               without its csleep statements ends in the same state; (P) random instruction lists built through AssemblyCode's \
+               public API with some instructions marked protected (what load/store/strobe/csleep emit): after optimize() every \
+               protected instruction is still there, in order; non-trivial = timing case, or a program with an adjacency label \
                that executes explicit accesses or contains csleep; distinct by hash of source (+ level)"
             .into(),
         assumptions: vec![
